@@ -221,6 +221,41 @@ fn strategy(tier: Tier) -> BoxedStrategy<Case> {
         .boxed()
 }
 
+/// An ontology with `n_mod` modifier roots and `n_cat` phenotype categories (more than 255 top-level
+/// branches), a child below each, every 7th child below two categories and every 11th below a
+/// category and a modifier root.
+pub fn wide_facts(n_mod: u32, n_cat: u32) -> Facts {
+    let mut f = Facts::default();
+    f.version = (2024, 6, 1);
+    let t = |f: &mut Facts, id: u32, name: String| f.terms.push(TermFact { id, name, obsolete: false, replacement: None });
+    t(&mut f, 1, "All".into());
+    t(&mut f, 118, "Phenotypic abnormality".into());
+    f.edges.push((118, 1));
+    for i in 0..n_mod {
+        let root = 200_000 + i * 3;
+        t(&mut f, root, format!("m{i}"));
+        f.edges.push((root, 1));
+        t(&mut f, root + 1, format!("mc{i}"));
+        f.edges.push((root + 1, root));
+    }
+    for i in 0..n_cat {
+        // ids below and above the modifier block
+        let cat = if i % 2 == 0 { 1000 + i * 3 } else { 5_000_000 + i * 3 };
+        t(&mut f, cat, format!("c{i}"));
+        f.edges.push((cat, 118));
+        t(&mut f, cat + 1, format!("cc{i}"));
+        f.edges.push((cat + 1, cat));
+        if i % 7 == 3 && i >= 2 {
+            let other = if (i - 2) % 2 == 0 { 1000 + (i - 2) * 3 } else { 5_000_000 + (i - 2) * 3 };
+            f.edges.push((cat + 1, other));
+        }
+        if i % 11 == 5 && n_mod > 0 {
+            f.edges.push((cat + 1, 200_000 + (i % n_mod) * 3));
+        }
+    }
+    f
+}
+
 impl Property for C19 {
     fn id(&self) -> &'static str {
         "C19"
@@ -238,12 +273,30 @@ impl Property for C19 {
         }
     }
     fn required_labels(&self, _tier: Tier) -> Vec<&'static str> {
-        vec!["nontrivial", "categories>30", "missing-root", "term-below-modifier-and-phenotype-branch", "term-in-several-categories", "118-not-below-1", "118-without-children", "childless-top-level-term", "public-setters-after-build_minimal"]
+        vec!["nontrivial", "categories>30", "missing-root", "term-below-modifier-and-phenotype-branch", "term-in-several-categories", "118-not-below-1", "118-without-children", "childless-top-level-term", "public-setters-after-build_minimal", "categories>255"]
     }
     fn run_generated(&self, tier: Tier, seed: u64, n: u64, stats: &mut Stats) -> Option<(Value, Failure)> {
         run_typed(strategy(tier), seed, n, stats, check)
     }
     fn replay(&self, case: &Value, stats: &mut Stats) -> Result<CheckResult, String> {
+        if let Some(w) = case.get("wide") {
+            let v: (u32, u32, PathSel, u8) = serde_json::from_value(w.clone()).map_err(|e| e.to_string())?;
+            stats.cases += 1;
+            let c = Case { base: OntCase { facts: wide_facts(v.0, v.1), path: v.2, noise: Default::default() }, drop_roots: 0, setters: v.3 };
+            let r = check(&c, stats);
+            if r.is_ok() && v.0.max(v.1) > 255 {
+                stats.label("categories>255");
+            }
+            return Ok(r);
+        }
         replay_typed::<Case, _>(case, stats, check)
+    }
+    fn isolated_plans(&self, tier: Tier, _seed: u64) -> Vec<Value> {
+        let mut out = vec![json!({"wide": (300u32, 260u32, PathSel::BuilderDefaults, 0u8)}), json!({"wide": (256u32, 1500u32, PathSel::Bin(3), 0u8)})];
+        if tier == Tier::Thorough {
+            out.push(json!({"wide": (4000u32, 300u32, PathSel::Builder, 2u8)}));
+            out.push(json!({"wide": (300u32, 300u32, PathSel::Jax, 0u8)}));
+        }
+        out
     }
 }
